@@ -4,6 +4,14 @@
      pidct c0..c15 p0..p15      I transform_one
      wht / fwht  c0..c15        I lane16_(f)wht        S (f)transform_wht
      pwht / pfwht c0..c15       I (f)transform_wht
+     fdct  s0..s15 r0..r15      I lane32_fdct          S ftransform
+     pfdct s0..s15 r0..r15      I ftransform
+     yuv  y u v                 I l_yuv_{r,g,b}        S yuv_{r,g,b}
+     pyuv y u v                 I yuv_{r,g,b}
+     tdisto a0..a15 b0..b15     I l_tdisto (kWeightY)  S tdisto
+     ptdisto a0..a15 b0..b15    I tdisto
+     quant  x sharpen iq bias   I quant_lane           S quant_go   (AC positions)
+     pquant x sharpen iq bias   I quant_go
      tm  top left tl            I l_tm_sample          S tm_sample
      ptm top left tl            I tm_sample
      agreen / sgreen a r g b    I *_green_lanes        S *_green_go (packed ARGB)
@@ -19,6 +27,11 @@ let zs l = Stdlib.List.map z_of_string l
 let show_list l = String.concat "," (Stdlib.List.map string_of_z l)
 let show_res r = match r with
   | Res.Ok l -> show_list l
+  | Res.Err _ -> "err"
+  | Res.Panic -> "panic"
+
+let show_resz r = match r with
+  | Res.Ok z -> string_of_z z
   | Res.Err _ -> "err"
   | Res.Panic -> "panic"
 
@@ -50,6 +63,22 @@ let () = iter_lines (fun line ->
     | "pwht" -> one (show_res (ArchLane16.transform_wht a))
     | "fwht" -> both (show_res (ArchLane16.lane16_fwht a)) (show_res (ArchLane16.ftransform_wht a))
     | "pfwht" -> one (show_res (ArchLane16.ftransform_wht a))
+    | "fdct" -> both (show_res (ArchLane16.lane32_fdct (take 16 a) (drop 16 a)))
+                     (show_res (ArchLane16.ftransform (take 16 a) (drop 16 a)))
+    | "pfdct" -> one (show_res (ArchLane16.ftransform (take 16 a) (drop 16 a)))
+    | "yuv" -> (match a with [y; u; v] ->
+                 both (show_list [ArchLane16.l_yuv_r y v; ArchLane16.l_yuv_g y u v; ArchLane16.l_yuv_b y u])
+                      (show_list [ArchLane16.yuv_r y v; ArchLane16.yuv_g y u v; ArchLane16.yuv_b y u])
+               | _ -> failwith "yuv")
+    | "pyuv" -> (match a with [y; u; v] -> one (show_list [ArchLane16.yuv_r y v; ArchLane16.yuv_g y u v; ArchLane16.yuv_b y u])
+               | _ -> failwith "pyuv")
+    | "tdisto" -> both (show_resz (ArchLane16Tables.l_tdisto_src (take 16 a) (drop 16 a)))
+                       (show_resz (ArchLane16Tables.tdisto_src (take 16 a) (drop 16 a)))
+    | "ptdisto" -> one (show_resz (ArchLane16Tables.tdisto_src (take 16 a) (drop 16 a)))
+    | "quant" -> (match a with [x; sh; iq; b] ->
+                 both (string_of_z (ArchLane16.quant_lane x sh iq b)) (string_of_z (ArchLane16.quant_go x sh iq b))
+               | _ -> failwith "quant")
+    | "pquant" -> (match a with [x; sh; iq; b] -> one (string_of_z (ArchLane16.quant_go x sh iq b)) | _ -> failwith "pquant")
     | "tm" -> (match a with [t; l; tl] ->
                  both (string_of_z (ArchLane16.l_tm_sample t l tl)) (string_of_z (ArchLane16.tm_sample t l tl))
                | _ -> failwith "tm")
